@@ -47,12 +47,14 @@ func SignSHA256(k *Key, tbs []byte) []byte {
 
 // CRLEntry describes one revoked-certificate entry.
 type CRLEntry struct {
-	Serial      *big.Int
-	Reason      int // -1 = no reason extension
-	RevokedAt   time.Time
-	Invalidity  time.Time // zero = none
-	UnknownCrit bool      // unknown critical entry extension
-	ReasonCrit  bool
+	Serial             *big.Int
+	Reason             int // -1 = no reason extension
+	RevokedAt          time.Time
+	Invalidity         time.Time // zero = none
+	InvalidityCritical bool      // the invalidity-date extension itself is flagged critical (a known extension: still processed)
+	ReasonCritical     bool      // the reason-code extension is flagged critical
+	UnknownCrit        bool      // unknown critical entry extension
+	ReasonCrit         bool
 }
 
 // CRLSpec describes a CRL to forge.
@@ -125,7 +127,7 @@ func ForgeCRL(s CRLSpec) []byte {
 			if err != nil {
 				panic(err)
 			}
-			rc.Extensions = append(rc.Extensions, pkix.Extension{Id: OIDInvalidityDate, Value: v})
+			rc.Extensions = append(rc.Extensions, pkix.Extension{Id: OIDInvalidityDate, Critical: e.InvalidityCritical, Value: v})
 		}
 		if e.UnknownCrit {
 			rc.Extensions = append(rc.Extensions, pkix.Extension{Id: OIDUnknownExt, Critical: true, Value: []byte{0x05, 0x00}})
